@@ -1,6 +1,7 @@
 """C10 — declared method, collection-return and enum types are honoured exactly.
 
-Model: lean/FaxVerif/C10/Model.lean (parse_type, terminal/collection, process_metadata's method branch,
+Model: lean/FaxVerif/C10/Model.lean + ExtModel.lean (tails of columns, namespace objects with parent links, process_metadata
+as a fold, access text as characters) (parse_type, terminal/collection, process_metadata's method branch,
 determine_type_mf, base_type_member_access / dereference_var, chains of declared calls through the member
 visitors, enum / namespace resolution).
 Tie T: tools → lean/FaxVerif/Generated/C10Tables.lean (refusal list, fallback type, metadata keys) from the source.
@@ -94,7 +95,10 @@ RULE = (
     "small worlds) x attribute paths to every value. Pipeline stream: one query per case whose own metadata declares the event "
     "collection (on CMS with element_pointer absent / False / True), the method signatures (value / pointer depth 0..3 / object / collection by value or pointer of values or "
     "pointers / deref_count 0..3 / tree_type) and enums; columns are chains of calls, indexings and Select/SelectMany loops over "
-    "them; sequences of 2-3 such translations in one process (same undeclared method used repeatedly, on new and shared executors, through write_cpp_files and through "
+    "them, ending plainly or in a tail (+ - * / literal, every comparison with a literal, == / != with an enum constant through up to 5 namespace levels; directed over every arithmetic base x tree_type, then random); "
+    "extension unit streams: base_type_member_access on every split d+k=n of every total n=0..6 then random to 14 (counting Spec shapeOk); define_enum + value_as_cpp through namespace nesting 1..10; "
+    "lists of 2-4 declarations of distinct methods (directed: a declaration carrying deref_count / tree_type / return_type_collection next to one that does not; random) in EVERY order, each registry entry compared "
+    "with the entry the declaration gets alone (localOk); sequences of 2-3 such translations in one process (same undeclared method used repeatedly, on new and shared executors, through write_cpp_files and through "
     "the bare visitor, interleaved with declared-only and refused queries) judged translation by translation; exhaustive over single-signature worlds, then random worlds with 3 classes and chains up to 6 steps, on the three "
     "backends. A case is non-trivial when it exercises a pointer depth or deref count > 0, a collection, a tree_type, an enum or "
     "a fallback; distinct = distinct canonical input."
@@ -122,15 +126,23 @@ LEVEL_TEXT = (
     "exactly the parsed declared types, last declaration wins; every chain (any length) of declared calls, indexings and loops keeps "
     "the emitted expression typed with exactly the type the translator holds (chain_typed_partial); collections are iterated/indexed "
     "with the element type; columns carry the declared tree type with a cast exactly when needed; enum constants render as "
-    "ns::…::Value in every namespace state. The hand model is tied to the code on every run by unit-level and whole-pipeline "
+    "ns::…::Value in every namespace state and through every depth of namespace nesting (enum_qualified_any_depth: full_name as the "
+    "recursion through parent_ns); the access text for every total indirection n has exactly n-1 explicit * and one -> / . "
+    "(access_any_depth, shape_exact); process_metadata's method branch is a fold whose only carried state is the registry: each "
+    "declaration is read on its own keys (declaration_local), lists of distinct methods may be processed in any order "
+    "(declaration_order_free); columns ending in + - * / literal, a comparison with a literal or with an enum constant are declared "
+    "with the method's tree type / double / bool, cast exactly when needed, and well typed (column_tail_typed_partial, "
+    "col_tail_typed_partial, accepts_iff_tail). The hand model is tied to the code on every run by unit-level and whole-pipeline "
     "differential execution, and the same typing judgement is evaluated on the implementation's generated text."
 )
 LEVEL_NOTE = (
     "Partial where named *_partial: chain_typed_partial excludes collections reached through >= 2 pointers when a loop is opened on "
     "them (counterexample theorem + known finding: dereferenced once only); column_typed_partial excludes a tree_type on a "
-    "pointer-valued method (counterexample + known finding: column float* fed by static_cast<float>). Proof frontier: columns "
-    "that end in `+ 1` or `== enum constant` are covered by the executable Spec on the implementation's text and by g++, not by a "
-    "theorem. CMS `element_pointer` (repaired in /repo f99b3dd) is modelled (`rootElemDepth`), generated in the main stream and replayed as a fixed finding. Trusted: Lean kernel; the typing rules as a model "
+    "pointer-valued method (counterexample + known finding: column float* fed by static_cast<float>); column_tail_typed_partial / "
+    "col_tail_typed_partial cover the tails inside the decidable `tailDomain` (operand a non-pointer int/float/double — or enum for a "
+    "constant comparison; true division of a float is outside: C++ computes a float that is stored in the declared double column, "
+    "which the exact-type judgement colOk does not admit; `%` and tails with two method operands are not modelled — those are "
+    "covered only by g++ on the generated text when generated). CMS `element_pointer` (repaired in /repo f99b3dd) is modelled (`rootElemDepth`), generated in the main stream and replayed as a fixed finding. Trusted: Lean kernel; the typing rules as a model "
     "of C++ (validated by g++ each run); the expression parser; agreement model/Python is by differential execution."
 )
 
@@ -1746,9 +1758,13 @@ HOW_LOCAL = ("cpp_types.g_method_type_dict = {}; process_metadata([{'metadata_ty
 
 
 def judge_ext_units(ctx):
+    from vlib import corpus_cases
+
     rng, tier = ctx.rng, ctx.tier
+    ucorpus = [c for c in corpus_cases(ID) if c.get("kind") == "unit"]
     # --- (1) member access for every split d + k = n of every total n = 0..6 (then random totals to 14)
-    acc = [(x, d, n - d) for x in ["x", "(*a)->b()", "p->q(3)"] for n in range(0, 7) for d in range(0, n + 1)]
+    acc = [(c["x"], c["d"], c["n"]) for c in ucorpus if c.get("op") == "access"]
+    acc += [(x, d, n - d) for x in ["x", "(*a)->b()", "p->q(3)"] for n in range(0, 7) for d in range(0, n + 1)]
     acc += [(rng.choice(["x", "a.b()->c()"]), rng.randint(0, 7), rng.randint(0, 7)) for _ in range(60 if tier == "quick" else 600)]
     reqs: List[Dict[str, Any]] = []
     acc_impl = []
@@ -1758,12 +1774,13 @@ def judge_ext_units(ctx):
         reqs.append({"op": "spec_access_shape", "x": x, "n": d + k, "obs": im.get("text", "")})
     # --- (2) enum constants through namespace nesting 1..8
     segs = ["xAOD", "Jet", "Sub", "Deep", "Er", "L6", "L7", "L8"]
-    en = [{"op": "enum_obj", "ns": segs[:n], "name": "Color", "v": v} for n in range(1, 9) for v in ("Red", "Blue")]
+    en = [{"op": "enum_obj", "ns": c["ns"], "name": c["name"], "v": c["v"]} for c in ucorpus if c.get("op") == "enum_obj"]
+    en += [{"op": "enum_obj", "ns": segs[:n], "name": "Color", "v": v} for n in range(1, 9) for v in ("Red", "Blue")]
     en += [{"op": "enum_obj", "ns": [rng.choice(["A", "B", "NS", "a_b"]) + str(i) for i in range(rng.randint(1, 10))], "name": "K", "v": "K1"} for _ in range(20 if tier == "quick" else 200)]
     en_impl = [impl_unit(r) for r in en]
     reqs.extend(en)
     # --- (3) lists of k <= 4 declarations in EVERY order: each entry is the one the declaration gets alone
-    lists = list(decl_lists_directed()) + [decl_pool(rng) for _ in range(25 if tier == "quick" else 300)]
+    lists = [c["mds"] for c in ucorpus if c.get("op") == "mdlocal"] + list(decl_lists_directed()) + [decl_pool(rng) for _ in range(25 if tier == "quick" else 300)]
     perms = [list(pm) for mds in lists for pm in itertools.permutations(mds)]
     loc_impl = [impl_unit({"op": "mdlocal", "mds": pm}) for pm in perms]
     loc_at = len(reqs)
